@@ -87,6 +87,35 @@ JudgeSignInternal(e) ==
       ELSE IF ~slh_verify_internal(p, M, sig, PKofSK(SK)) THEN <<"slh_sign_internal output does not verify under slh_verify_internal">>
       ELSE <<>>
 
+\* Signing / verifying with a forced digest (hook: H_msg returns e.digest, PRF_msg returns e.r; F, H, T_l, PRF real):
+\* the part of Algorithms 19 / 20 after the digest is computed.
+JudgeSignDigest(e) ==
+  LET p   == ParamSet(e.ps)
+      SK  == DecodeSK(p, HexToBytes(e.sk))
+      dg  == HexToBytes(e.digest)
+      sig == HexToBytes(e.sig)
+  IN  IF e.panic THEN <<"signInternal panicked on a chosen digest", e.what>>
+      ELSE IF e.err THEN <<"signInternal failed on a chosen digest", e.what>>
+      ELSE IF Len(sig) # SigLen(p) THEN <<"signature length", ToString(SigLen(p))>>
+      ELSE IF SigR(p, sig) # HexToBytes(e.r) THEN <<"R is not the output of PRF_msg", e.r>>
+      ELSE IF e.full THEN
+             LET want == HexToBytes(e.r) \o SignDigest(p, dg, SK)
+             IN  IF sig = want THEN <<>> ELSE Differ("signature differs from Algorithm 19 lines 6-18 for this digest: " \o e.what, sig, want, p.n)
+      ELSE IF ~VerifyDigest(p, dg, SigFORS(p, sig), SigHT(p, sig), PKofSK(SK)) THEN
+             <<"signature for a chosen digest does not verify (Algorithm 20 lines 7-18)", e.what>>
+      ELSE <<>>
+
+JudgeVerifyDigest(e) ==
+  LET p    == ParamSet(e.ps)
+      pk   == HexToBytes(e.pk)
+      sig  == HexToBytes(e.sig)
+      want == /\ Len(pk) = PkLen(p)
+              /\ Len(sig) = SigLen(p)
+              /\ VerifyDigest(p, HexToBytes(e.digest), SigFORS(p, sig), SigHT(p, sig), DecodePK(p, pk))
+  IN  IF e.panic THEN <<"verifyInternal panicked on a chosen digest", e.what>>
+      ELSE IF e.ok = want THEN <<>>
+      ELSE <<"verifyInternal verdict for a chosen digest differs from Algorithm 20 lines 7-18", ToString(want), e.what, e.mut>>
+
 \* ---------------------------------------------------------------- verification
 WantVerify(e) ==
   LET p   == ParamSet(e.ps)
@@ -179,11 +208,21 @@ JudgeSplit(e) ==
       ELSE IF e.layers # SplitLayers(p, dg) THEN <<"per-layer tree/leaf addresses differ from Algorithm 13", ToString(SplitLayers(p, dg))>>
       ELSE <<>>
 
+\* The final root comparison, probed with stubbed hashes (every node is the zero string): the reference with the ZERO family,
+\* the given digest, an all-zero signature and the given PK.root.
+JudgeRootCmp(e) ==
+  LET p    == [ParamSet(e.ps) EXCEPT !.fam = "ZERO"]
+      want == VerifyDigest(p, HexToBytes(e.digest), ZeroBytes(p.k * (1 + p.a) * p.n), ZeroBytes((p.h + p.d * p.len) * p.n),
+                           [seed |-> ZeroBytes(p.n), root |-> HexToBytes(e.pkroot)])
+  IN  IF e.ok = want THEN <<>> ELSE <<"root comparison (ht_verify line 'node = PK.root') differs from FIPS 205 on stubbed hashes", ToString(want)>>
+
 \* ---------------------------------------------------------------- dispatcher
 Judge(e) ==
   CASE e.ev = "verify"        -> JudgeVerify(e)
     [] e.ev = "sign"          -> JudgeSign(e)
     [] e.ev = "sign_internal" -> JudgeSignInternal(e)
+    [] e.ev = "sign_digest"   -> JudgeSignDigest(e)
+    [] e.ev = "verify_digest" -> JudgeVerifyDigest(e)
     [] e.ev = "keygen"        -> JudgeKeygen(e)
     [] e.ev = "derived"       -> JudgeDerived(e)
     [] e.ev = "base2b"        -> JudgeBase2b(e)
@@ -193,6 +232,7 @@ Judge(e) ==
     [] e.ev = "checksum"      -> JudgeChecksum(e)
     [] e.ev = "adrs"          -> JudgeAdrs(e)
     [] e.ev = "split"         -> JudgeSplit(e)
+    [] e.ev = "rootcmp"       -> JudgeRootCmp(e)
     [] OTHER -> <<"unknown event", e.ev>>
 
 Start == IF "VERIF_START" \in DOMAIN IOEnv THEN atoi(IOEnv.VERIF_START) ELSE 1
